@@ -67,6 +67,12 @@ func repTampers(c *Ctx) []repTamper {
 		{name: "srealm", invalidates: true, as: true, tgs: true, f: func(rep *messages.KDCRepFields, enc *messages.EncKDCRepPart, key *types.EncryptionKey, usage *uint32, skew time.Duration) {
 			enc.SRealm = "OTHER.REALM"
 		}},
+		{name: "crealm-case", invalidates: true, as: true, f: func(rep *messages.KDCRepFields, enc *messages.EncKDCRepPart, key *types.EncryptionKey, usage *uint32, skew time.Duration) {
+			rep.CRealm = strings.ToLower(rep.CRealm) // realm names are case sensitive (RFC 4120 6.1)
+		}},
+		{name: "srealm-case", invalidates: true, as: true, tgs: true, f: func(rep *messages.KDCRepFields, enc *messages.EncKDCRepPart, key *types.EncryptionKey, usage *uint32, skew time.Duration) {
+			enc.SRealm = strings.ToLower(enc.SRealm[:1]) + enc.SRealm[1:]
+		}},
 		{name: "ticket-realm", invalidates: true, tgs: true, f: func(rep *messages.KDCRepFields, enc *messages.EncKDCRepPart, key *types.EncryptionKey, usage *uint32, skew time.Duration) {
 			rep.Ticket.Realm = "OTHER.REALM"
 		}},
